@@ -1746,6 +1746,7 @@ pub fn gen_op(rng: &mut Rng, info: &FontInfo, kind: &str) -> Op {
                     Some(Positions {
                         rtl: rng.pct(35),
                         vertical: rng.pct(20),
+                        prefix: if rng.pct(12) { Some(rng.usize_below(12)) } else { None },
                     })
                 } else {
                     None
@@ -1945,10 +1946,12 @@ fn near_miss(rng: &mut Rng, info: &FontInfo, base: &Op) -> Op {
                         None => Some(Positions {
                             rtl: rng.pct(50),
                             vertical: rng.pct(50),
+                            prefix: None,
                         }),
                         Some(p) => Some(Positions {
                             rtl: !p.rtl,
                             vertical: p.vertical ^ rng.pct(50),
+                            prefix: p.prefix,
                         }),
                     }
                 }
